@@ -1,5 +1,144 @@
+//! cfavml-harness: differential-testing ("oracle search") harness for CFAVML.
+//!
+//! `cfavml-harness search <PROP> --tier quick|thorough --seed <u64> --out <path.json>`
+//! `cfavml-harness emit ...` (filled in elsewhere)
+
+#![allow(clippy::all)]
+#![allow(dead_code)]
+
 #[path = "gen/tables.rs"]
 pub mod tables;
+
+pub mod elem;
+pub mod emit;
+pub mod kern;
+pub mod mem;
+pub mod oracle;
+pub mod prng;
+pub mod report;
+pub mod search;
+pub mod vals;
+
+pub use emit::main_emit;
+
+use std::time::Instant;
+
+fn usage() -> i32 {
+    eprintln!(
+        "usage:\n  cfavml-harness search <PROP> --tier quick|thorough --seed <u64> --out <path.json>\n  \
+         cfavml-harness list\n  cfavml-harness emit ...\n\nPROP: {}",
+        search::PROPERTIES.join(" ")
+    );
+    2
+}
+
+fn main_search(args: &[String]) -> i32 {
+    let mut prop: Option<String> = None;
+    let mut tier = mem::Tier::Quick;
+    let mut seed: u64 = 1;
+    let mut out: Option<String> = None;
+    let mut workers: Option<usize> = None;
+    let mut budget: Option<u64> = None;
+    let mut i = 0;
+    while i < args.len() {
+        let a = args[i].as_str();
+        let mut val = || -> Option<&String> {
+            i += 1;
+            args.get(i)
+        };
+        match a {
+            "--tier" => match val().map(|s| s.as_str()) {
+                Some("quick") => tier = mem::Tier::Quick,
+                Some("thorough") => tier = mem::Tier::Thorough,
+                _ => return usage(),
+            },
+            "--seed" => match val().and_then(|s| s.parse::<u64>().ok()) {
+                Some(s) => seed = s,
+                None => return usage(),
+            },
+            "--out" => match val() {
+                Some(s) => out = Some(s.clone()),
+                None => return usage(),
+            },
+            "--workers" => match val().and_then(|s| s.parse::<usize>().ok()) {
+                Some(s) if s > 0 => workers = Some(s),
+                _ => return usage(),
+            },
+            "--budget-secs" => match val().and_then(|s| s.parse::<u64>().ok()) {
+                Some(s) if s > 0 => budget = Some(s),
+                _ => return usage(),
+            },
+            s if s.starts_with("--") => return usage(),
+            s => {
+                if prop.is_some() {
+                    return usage();
+                }
+                prop = Some(s.to_uppercase());
+            },
+        }
+        i += 1;
+    }
+    let (Some(prop), Some(out)) = (prop, out) else { return usage() };
+    if !search::PROPERTIES.contains(&prop.as_str()) {
+        eprintln!("unknown property {prop}");
+        return usage();
+    }
+    let mut cfg = mem::RunCfg::for_tier(tier);
+    if let Some(w) = workers {
+        cfg.workers = w;
+    }
+    if let Some(b) = budget {
+        cfg.budget = std::time::Duration::from_secs(b);
+    }
+    let start = Instant::now();
+    let mut rng = prng::Rng::new(seed);
+    let Some((rule, body)) = search::run(&prop, &cfg, &mut rng) else {
+        return usage();
+    };
+    let rep = report::Report {
+        property: prop.clone(),
+        tier: tier.name().to_string(),
+        seed,
+        rule,
+        elapsed_ms: start.elapsed().as_millis() as u64,
+        body,
+    };
+    let json = rep.to_json();
+    if let Err(e) = std::fs::write(&out, &json) {
+        eprintln!("cannot write {out}: {e}");
+        return 2;
+    }
+    eprintln!(
+        "{} {} seed={} evaluations={} distinct_nontrivial={} violations={} elapsed={:.1}s -> {}",
+        prop,
+        tier.name(),
+        seed,
+        rep.body.evaluations,
+        rep.body.distinct,
+        rep.body.violations.len(),
+        start.elapsed().as_secs_f64(),
+        out
+    );
+    if !rep.body.internal_errors.is_empty() {
+        for e in &rep.body.internal_errors {
+            eprintln!("internal error: {e}");
+        }
+        return 2;
+    }
+    0
+}
+
 fn main() {
-    println!("{} exports", tables::EXPORT_META.len());
+    let args: Vec<String> = std::env::args().skip(1).collect();
+    let code = match args.first().map(|s| s.as_str()) {
+        Some("search") => main_search(&args[1..]),
+        Some("emit") => main_emit(&args[1..]),
+        Some("list") => {
+            println!("{}", search::PROPERTIES.join(" "));
+            println!("exports in tables: {}", tables::EXPORT_META.len());
+            0
+        },
+        _ => usage(),
+    };
+    std::process::exit(code);
 }
